@@ -370,3 +370,72 @@ def module_level_objects(P: Program, module_prefixes: Tuple[str, ...]) -> List[T
                                                 for n in walk_no_nested(f.node) if isinstance(n, ast.Name) and n.id == t.id and isinstance(n.ctx, ast.Load) and not _is_local(f, t.id)})
                                 out.append((f"{owner}.{t.id}", cq, m.rel, st.lineno, users))
     return out
+
+
+def handrolled_memos(P: Program, prefixes: Tuple[str, ...] = ("vtlengine",)) -> List[Tuple[FuncInfo, str, int, List[str]]]:
+    """Functions that memoise by hand: a container that outlives the call (attribute of self / cls, module global) is looked up under
+    a key (`C.get(K)`, `K in C`, `C[K]`) and later assigned `C[K] = <computed>` in the same function.  Returned: (function, container,
+    line of the store, parameters that the computed value depends on but the key does not contain).  A non-empty list means two calls
+    that differ only in such a parameter get each other's answer."""
+    out: List[Tuple[FuncInfo, str, int, List[str]]] = []
+    for f in P.iter_functions():
+        if not f.module.name.startswith(prefixes):
+            continue
+        stores = []
+        for n in walk_no_nested(f.node):
+            if isinstance(n, ast.Assign) and len(n.targets) == 1 and isinstance(n.targets[0], ast.Subscript):
+                c = n.targets[0].value
+                if (isinstance(c, ast.Attribute) and isinstance(c.value, ast.Name) and c.value.id in ("self", "cls")) or \
+                        (isinstance(c, ast.Name) and c.id in f.module.assigns and c.id not in f.params and not _is_local(f, c.id)):
+                    stores.append((n, src(c), n.targets[0].slice))
+        for st, cont, key in stores:
+            looked = any((isinstance(x, ast.Call) and isinstance(x.func, ast.Attribute) and x.func.attr == "get" and src(x.func.value) == cont and x.args and src(x.args[0]) == src(key))
+                         or (isinstance(x, ast.Compare) and any(isinstance(o, (ast.In, ast.NotIn)) for o in x.ops) and src(x.left) == src(key) and src(x.comparators[0]) == cont)
+                         or (isinstance(x, ast.Subscript) and isinstance(x.ctx, ast.Load) and src(x.value) == cont and src(x.slice) == src(key))
+                         for x in walk_no_nested(f.node))
+            if not looked:
+                continue
+
+            def expand(e: ast.AST, depth: int = 0) -> Set[str]:
+                names: Set[str] = set()
+                for x in ast.walk(e):
+                    if isinstance(x, ast.Name) and isinstance(x.ctx, ast.Load):
+                        defs = [d.value for d in walk_no_nested(f.node) if isinstance(d, (ast.Assign, ast.AnnAssign)) and d.value is not None and d is not st
+                                and any(isinstance(t, ast.Name) and t.id == x.id for t in (d.targets if isinstance(d, ast.Assign) else [d.target]))]
+                        if defs and depth < 4 and x.id not in f.params:
+                            for d in defs:
+                                names |= expand(d, depth + 1)
+                        else:
+                            names.add(x.id)
+                return names
+            key_names = expand(key)
+            val_names = expand(st.value)
+            params = [p_ for p_ in f.params if p_ not in ("self", "cls")]
+            a = f.node.args  # type: ignore[attr-defined]
+            params += [x.arg for x in a.kwonlyargs if x.arg not in params] + ([a.vararg.arg] if a.vararg and a.vararg.arg not in params else []) + ([a.kwarg.arg] if a.kwarg else [])
+            omitted = [p_ for p_ in params if p_ in val_names and p_ not in key_names]
+            out.append((f, cont, st.lineno, omitted))
+    return out
+
+
+HANDROLLED_REVIEWED: Dict[str, str] = {
+    "vtlengine.DataTypes.TimeHandling.SingletonMeta.__call__": "singleton metaclass: one instance per class by design; its only user (PeriodDuration) is constructed without arguments",
+}
+
+
+def report_handrolled_memos(P: Program, rep: Any, rule: str, prefixes: Tuple[str, ...], consequence: str) -> None:
+    n = 0
+    for f, cont, line, omitted in handrolled_memos(P, prefixes):
+        n += 1
+        key = f"handrolled-memo/{f.qualname}/{cont}"
+        rep.instance(rule, key, nontrivial=bool(omitted), sample={"function": f.qualname, "container": cont, "parameters missing from the key": omitted} if omitted else None)
+        if not omitted:
+            continue
+        if f.qualname in HANDROLLED_REVIEWED:
+            rep.exemption(rule, key, HANDROLLED_REVIEWED[f.qualname])
+            continue
+        from sa.core import Finding
+        rep.add(Finding(rule, f"{rule}/{key}", f.module.rel, line, f.qualname,
+                        f"{f.name} keeps its result in `{cont}` under a key that leaves out the parameter(s) {omitted} the result depends on: a later call that differs only there "
+                        f"is answered with the earlier call's result - {consequence}"))
+    rep.instance(rule, "handrolled-memos-examined", nontrivial=False, sample={"lookup-and-store sites": n})
